@@ -103,6 +103,7 @@ type Path struct {
 	obligs      []*Oblig
 	keptUnknown int
 	inInit      bool
+	fmtCalls    int
 	shadow      []*Term          // natively evaluable equivalents of witness-carrying conjuncts
 	wdefs       map[*Term]*Term // witness variable -> defining term
 	detObs      []Obs
